@@ -382,6 +382,20 @@ pub fn cases(tier: Tier) -> Vec<Case> {
             out.push(Case { kind: Kind::Refresh, form, text: num.clone(), expect: Expect::Either });
         }
     }
+    // sums that reach the very top of the representable range: the exact value (if it fits) or a rejection, no panic
+    for (text, exact) in [
+        ("18446744073709551615s 1000ms", None),
+        ("18446744073709551615 seconds 1000000000 ns", None),
+        ("307445734561825860 minutes 15 s 999 ms 1000 us", None),
+        ("18446744073709551615s 999ms", Some("18446744073709551615999000000ns")),
+        ("18446744073709551614s 1000ms", Some("18446744073709551615000000000ns")),
+        ("18446744073709551615s 1001ms", None),
+        ("18446744073709551615s 1s", None),
+    ] {
+        for form in [Form::YamlQuoted, Form::JsonString, Form::TomlString] {
+            out.push(Case { kind: Kind::Refresh, form, text: text.to_string(), expect: match exact { Some(v) => Expect::ValueOrReject(v.to_string()), None => Expect::Reject } });
+        }
+    }
     for junk in ["10 parsecs", "s", "10 s s", "-5s", "5 s!", "ten seconds", "5sx", "30 Seconds", "1 H", "5 MIN", "2 Days"] {
         for form in [Form::YamlQuoted, Form::JsonString, Form::TomlString] {
             out.push(Case { kind: Kind::Refresh, form, text: junk.to_string(), expect: Expect::Reject });
